@@ -146,7 +146,7 @@ func (c Float64) POW(a, k Float64) Float64 {
 /* -------------------------------------------------------------------------- */
 func (c Float64) SQRT(a Float64) Float64 {
   x := a.GetFloat64()
-  c.SetFloat64(math.Sqrt(x))
+  c.SetFloat64(math.Pow(x, 0.5))
   return c
 }
 /* -------------------------------------------------------------------------- */
